@@ -9,12 +9,12 @@ from ..seams import Sim
 PROP = 'C17'
 LEVEL = 'fault_enumeration'
 CASES_ARE_COUNTED = True
-TIERS = {'quick': {'runs': 1100, 'budget_s': 50}, 'thorough': {'runs': 100000, 'budget_s': 900}}
+TIERS = {'quick': {'runs': 900, 'budget_s': 50}, 'thorough': {'runs': 100000, 'budget_s': 900}}
 RULE = ('one run = one seeded world: a query (library of finite-shallow, finite-deep, infinite-answer, non-terminating, left-recursive and doubly '
         'recursive programs with seeded list lengths, or a generated finite program), caller depth in {0,7,23}, initial process limit in {650,1000,3000, caller depth + 60, caller depth + 150}, '
         'query held by the caller or passed inline, projection = answer index or recursive to_python, registry of all variables on/off. Per world the '
         'fault space is enumerated completely: EVERY recursion_limit from (caller depth + 8) to (caller depth + 243) frames, and the projection '
-        'raising at EVERY k <= 6 for two exception types. A case = one evaluate_bounded call; non-trivial = the depth limit struck inside the search or '
+        'raising at EVERY k <= 6 for two exception types (under four different limits, each followed by a fault-free call whose completeness is checked). A case = one evaluate_bounded call; non-trivial = the depth limit struck inside the search or '
         'the projection raised; distinct = hash of (query, offset of the limit above the caller, number of answers returned, fault)')
 ASSUMPTIONS = [
     'one active thread (each run executes on one fresh thread so that the caller depth is a constant); the caller\'s own stack is shallower than every limit used (the statement\'s scope)',
@@ -26,7 +26,7 @@ ASSUMPTIONS = [
 COMPONENTS = {'real': ['yldprolog.engine evaluate_bounded, query, generated clause code', 'sys.setrecursionlimit / CPython recursion accounting'],
               'stub': ['caller (harness frames of seeded depth)', 'projection functions with raise switches'],
               'oracle': ['self-referential: plain enumeration of the same query under a high limit; sys.getrecursionlimit(); get_value of every (registered) variable']}
-REQUIRED_PROBES = ('limit_struck_in_search', 'complete_within_limit', 'proj_raise_fired', 'held_by_caller', 'inline_query', 'proj_overflow_or_recursive',
+REQUIRED_PROBES = ('completeness_checked_after_projection_fault', 'limit_struck_in_search', 'complete_within_limit', 'proj_raise_fired', 'held_by_caller', 'inline_query', 'proj_overflow_or_recursive',
                    'initial_limit_below_given_limit')
 
 HIGH_LIMIT = 4000      # limit in force for the reference enumeration and the harness itself
@@ -316,6 +316,32 @@ def _execute(plan):
             sys.setrecursionlimit(HIGH_LIMIT)
         return out.get('n')
 
+    def completeness(off, after_fault):
+        """if the plain enumeration, run by the harness from the same depth, finishes under a limit MARGIN
+        frames lower, evaluate_bounded with this limit must return every answer"""
+        n = complete_under(off)
+        if n is None:
+            return None
+        got = []
+        sys.setrecursionlimit(abs_l0())
+        try:
+            def call2():
+                base = frame_depth()
+                got.append(yp.evaluate_bounded(yp.query(name, qargs), lambda x: 0, recursion_limit=base + off))
+            nest(d, call2)
+        except Exception:
+            got.append(None)
+        finally:
+            sys.setrecursionlimit(HIGH_LIMIT)
+        log.ev('complete', off, n, None if got[0] is None else len(got[0]), after_fault)
+        if after_fault is not None:
+            log.count('completeness_checked_after_projection_fault')
+        if got[0] is None or len(got[0]) != n:
+            return ('incomplete-within-limit', {'limit_offset': off, 'fault': after_fault, 'answers_under_lower_limit': n,
+                                                'returned': None if got[0] is None else len(got[0]),
+                                                'note': None if after_fault is None else 'checked right after the call in which the projection raised'})
+        return None
+
     try:
         log.count('held_by_caller' if held else 'inline_query')
         offsets = list(range(WINDOW[0], WINDOW[1] + 1)) if plan['limits'] == 'window' else plan['limits']
@@ -323,31 +349,20 @@ def _execute(plan):
             log.count('cases')
             v = one_call(off, None)
             if v is None and projkind == 'index' and off - MARGIN >= 4 and (off % 8 == 0 or plan['limits'] != 'window'):
-                n = complete_under(off)
-                if n is not None:
-                    # the search stays within the limit: evaluate_bounded must return everything
-                    got = []
-                    sys.setrecursionlimit(abs_l0())
-                    try:
-                        def call2():
-                            base = frame_depth()
-                            got.append(yp.evaluate_bounded(yp.query(name, qargs), lambda x: 0, recursion_limit=base + off))
-                        nest(d, call2)
-                    except Exception as e:
-                        got.append(None)
-                    finally:
-                        sys.setrecursionlimit(HIGH_LIMIT)
-                    log.ev('complete', off, n, None if got[0] is None else len(got[0]))
-                    if got[0] is None or len(got[0]) != n:
-                        v = ('incomplete-within-limit', {'limit_offset': off, 'fault': None, 'answers_under_lower_limit': n,
-                                                         'returned': None if got[0] is None else len(got[0])})
+                v = completeness(off, None)
             if v is not None:
                 log.violation(v[0], v[1])
                 return log.result()
-        faults = [[k, e] for k in range(0, 7) for e in ('KeyError', 'Boom')] if plan['proj_faults'] == 'all' else plan['proj_faults']
+        # projection faults at several limits, each followed by a fault-free call at a generous limit: whatever
+        # the faulted call left behind in the engine must not clamp or disturb the next one
+        FOFFS = (WINDOW[1] + 200, 30, 60, 120)
+        faults = ([[k, e, FOFFS[(k + i) % 4]] for k in range(0, 7) for i, e in enumerate(('KeyError', 'Boom'))]
+                  if plan['proj_faults'] == 'all' else plan['proj_faults'])
         for fault in faults:
             log.count('cases')
-            v = one_call(WINDOW[1] + 200, fault)
+            v = one_call(fault[2] if len(fault) > 2 else WINDOW[1] + 200, fault)
+            if v is None:
+                v = completeness(WINDOW[1] + 200, fault)
             if v is not None:
                 log.violation(v[0], v[1])
                 return log.result()
